@@ -12,11 +12,12 @@ META = dict(
               "with scripted short reads; hang verdict from SFTP request/response ledger + thread stacks",
     text="Random cases (file 0..300 KiB of position-revealing bytes; prefetch with/without file_size, reads and seeks; "
          "readv with ordered/overlapping/unordered/beyond-EOF/zero-length chunk lists; max_concurrent_requests None,1..8; "
-         "server answering READs with arbitrary short counts; reply gating and sleeps at _async_request/_async_response; in 40% of cases the prefetch thread is held at the return "
+         "server answering READs with arbitrary short counts; bounded pipes (requests direction 40-512 bytes, answers 32-64 KiB unread, sender blocks) with a pause before the "
+         "first read; a second readv() issued while the first one's prefetch thread is still registering thousands of requests; reply gating and sleeps at _async_request/_async_response; in 40% of cases the prefetch thread is held at the return "
          "of _async_request until the reader has dispatched the answer, i.e. the answer-before-registration schedule is forced) "
          "run on a real SFTPClient<->SFTPServer pair over an in-memory pipe. Every returned value is compared with the "
          "slice of the served bytes. A call is judged blocked only on logical evidence: caller inside recv(), every "
-         "request answered and consumed, every other client thread ended or in the prefetch throttle loop; a sample of "
+         "request answered and consumed, every other client thread ended or in the prefetch throttle loop; with bounded pipes: no byte moved and no thread moved for 10 s; a sample of "
          "hangs is replayed alone in a subprocess. Holds for the cases run.",
     note="Trusted: the harness pipe/packet ledger (vf.sftpbench) and the scripted server handle. The served file does "
          "not change during a case.",
@@ -39,6 +40,11 @@ V_STATUS = ("short result: the EOF status of one prefetch READ is raised inside 
 
 
 def hang_signature(out):
+    if out.get("kind") == "blocked_at_quiescence":
+        # built from where each thread of the case sits: caller (innermost paramiko frames), the other threads' functions
+        tail = "->".join(out["chain"][-3:])
+        others = sorted({"%s@%s" % (t[1], t[2]) for t in out.get("threads", [])[1:]})
+        return "deadlock under back-pressure (bounded pipe, no byte moved): caller in %s; other threads in %s" % (tail, ", ".join(others))
     st = out["state"]
     tail = "->".join(out["chain"][-4:-2]) if len(out["chain"]) >= 4 else "->".join(out["chain"])
     if st["extents"] > 0 and out["status_replies_to_reads"] > 0 and "_read_prefetch" in out["chain"]:
@@ -87,7 +93,7 @@ def run(ctx):
         if time.time() > end:
             ctx.count("stopped_by_time_cap")
             break
-        case = R.gen_case(ctx.rng, idx)
+        case = R.gen_case(ctx.rng, idx, ctx.quick)
         try:
             out = R.CaseRun(case).run()
         except Exception:
@@ -103,6 +109,18 @@ def run(ctx):
         if out.get("short_replies_inside_file"):
             ctx.count("cases_with_short_server_reads")
             ctx.count("short_server_replies_seen", out["short_replies_inside_file"])
+        if case.get("bounded"):
+            ctx.count("cases_bounded_pipe")
+            sb = out.get("sender_blocked") or [0, 0]
+            if sb[0]:
+                ctx.count("cases_request_sender_blocked_on_full_pipe")
+            if sb[1]:
+                ctx.count("cases_server_blocked_on_unread_answers")
+            if sb[0] and sb[1]:
+                ctx.count("cases_both_directions_blocked")
+        if out.get("concurrent_overlaps"):
+            ctx.count("cases_with_concurrent_readv")
+            ctx.count("second_readv_issued_while_first_still_registering", out["concurrent_overlaps"])
         if out.get("early_answers"):
             ctx.count("cases_with_answer_before_registration")
             ctx.count("answers_dispatched_before_registration", out["early_answers"])
@@ -112,6 +130,9 @@ def run(ctx):
             if r["op"] == "read":
                 ctx.count("read_values_compared")
                 ctx.count("bytes_compared", len(r.get("want", b"")))
+            elif r["op"] == "readv_pair":
+                ctx.count("readv_chunks_compared", r.get("chunks_compared", 0))
+                ctx.count("concurrent_readv_chunks_compared", r.get("chunks_compared", 0))
             elif r["op"] == "readv":
                 ctx.count("readv_chunks_compared", len(r.get("sub", [])))
                 ctx.count("bytes_compared", sum(len(s["want"] or b"") if not s["ok"] else s["chunk"][1] for s in r.get("sub", [])))
@@ -120,8 +141,15 @@ def run(ctx):
         if out["status"] == "watchdog":
             ctx.inconclusive("case exceeded its cap without the blocked-at-quiescence evidence: %r" % (out.get("chain"),))
             continue
+        if out["status"] == "hang" and out.get("kind") == "blocked_at_quiescence" and out["chain"][-1:] == ["_write_all"]:
+            # The caller itself is a sender stuck on the full request pipe (it fell back to a synchronous READ while
+            # answers nobody reads block the server): the capacity deadlock of any pipelined protocol over windows of
+            # a few dozen bytes, which the statement's transports cannot produce.  Outside this stratum's claim
+            # (lock discipline under back-pressure); counted, not judged.  See notes/groupD1.md addendum 6.
+            ctx.count("capacity_deadlock_caller_is_blocked_sender_not_judged")
+            continue
         if out["status"] == "hang":
-            ctx.count("hangs_by_request_ledger")
+            ctx.count("hangs_by_request_ledger" if out.get("kind") != "blocked_at_quiescence" else "hangs_blocked_at_quiescence")
             summ = R.summarize(out)
             wit = dict(case=case, observed=summ)
             if replayed < 2:
@@ -149,3 +177,8 @@ def run(ctx):
     ctx.require("cases_with_status_reply_to_read", ctx.pick(40, 500))
     ctx.require("cases_cap_set", ctx.pick(120, 1500))
     ctx.require("answers_dispatched_before_registration", ctx.pick(150, 2000))
+    ctx.require("cases_bounded_pipe", ctx.pick(60, 1500))
+    ctx.require("cases_both_directions_blocked", ctx.pick(8, 200))
+    ctx.require("cases_server_blocked_on_unread_answers", ctx.pick(25, 600))
+    ctx.require("cases_with_concurrent_readv", ctx.pick(10, 300))
+    ctx.require("second_readv_issued_while_first_still_registering", ctx.pick(12, 300))
